@@ -440,7 +440,8 @@ class yanny(OrderedDict):
                 return None
             typere = re.compile(
                 r'(\S+)\s+{0}([\[<][^;]*[\]>]|);'.format(variable))
-            (typ, array) = typere.search(definition[0]).groups()
+            (typ, array) = typere.search(
+                re.sub(r'#[^\n]*', '', definition[0])).groups()
             var_type = typ + array.replace('<', '[').replace('>', ']')
             cache[variable] = var_type
         return var_type
@@ -1059,7 +1060,8 @@ class yanny(OrderedDict):
             (definition, name) = typedefm.groups()
             self[name.upper()] = dict()
             self._symbols[name.upper()] = list()
-            definitions = re.findall(r'\S+\s+\S+;', definition)
+            definitions = re.findall(r'\S+\s+\S+;',
+                                     re.sub(r'#[^\n]*', '', definition))
             for d in definitions:
                 d = d.replace(';', '')
                 (datatype, column) = re.split(r'\s+', d)
